@@ -82,6 +82,25 @@ func Generate(r *prng.Rand, name string) *Schema {
 	return g.s
 }
 
+var commentTexts = []string{" doc", " two\n lines", " stars * and / slashes", " unicode \u00e9\u4e16", " x", " trailing star *", " [not a tag]", " looks like code: struct X { }"}
+
+func (g *gen) comment() string {
+	if !g.r.Chance(1, 3) {
+		return ""
+	}
+	c := commentTexts[g.r.Intn(len(commentTexts))]
+	if g.r.Chance(1, 10) {
+		// long comments push what follows across the tokenizer's buffer sizes
+		n := []int{500, 2040, 4080, 4090, 4100, 8190}[g.r.Intn(6)]
+		b := make([]byte, n)
+		for i := range b {
+			b[i] = "abcdefgh *"[i%10]
+		}
+		c += " " + string(b)
+	}
+	return c
+}
+
 func (g *gen) def(last bool) {
 	w := []int{4, 4, 2, 2} // struct, message, union, enum
 	if last {
@@ -90,10 +109,12 @@ func (g *gen) def(last bool) {
 	switch g.r.Pick(w) {
 	case 0:
 		d := g.structDef(g.nm.fresh(true), true)
+		d.Comment = g.comment()
 		g.s.Defs = append(g.s.Defs, d)
 		g.structs = append(g.structs, d.Name)
 	case 1:
 		d := g.messageDef(g.nm.fresh(true), true)
+		d.Comment = g.comment()
 		g.s.Defs = append(g.s.Defs, d)
 		g.messages = append(g.messages, d.Name)
 	case 2:
@@ -208,6 +229,9 @@ func (g *gen) messageDef(name string, top bool) *Def {
 		used[idx] = true
 		f := Field{Name: g.nm.fresh(false), Index: idx, Type: g.fieldType(0, KMessage, name)}
 		f.Deprecated = g.r.Chance(1, 6)
+		if g.r.Chance(1, 6) {
+			f.Comment = commentTexts[g.r.Intn(len(commentTexts))]
+		}
 		d.Fields = append(d.Fields, f)
 	}
 	SortFields(d.Fields)
